@@ -8,7 +8,18 @@ LEVEL = "other"
 SELFTEST_PARTS = ("num",)
 WALL_BUDGET = {"quick": 1200, "thorough": 9000}
 OPS = ["create_a", "create_b", "write_a", "write_b", "delete_a", "delete_b", "rename_a_b", "rename_b_a", "mkdir_d", "rmdir_d", "move_a_d", "rendir_d_e",
-       "mkdir_d_s", "create_d_a", "delete_d_a", "write_d_a"]
+       "mkdir_d_s", "create_d_a", "delete_d_a", "write_d_a", "mv:/d/a:/d/b"]
+# fixed multi-step user stories whose schedules are explored more deeply (slots per operation given with each)
+STORIES = {
+    "child-renamed-then-folder": (["mv:/d/a:/d/b", "rendir_d_e"], [2, 2]),
+    "new-child-folder-renamed-child-edited": (["create_d_n", "rendir_d_e", "write_e_n"], [1, 2, 2]),
+    "folder-renamed-recreated-child-moved-back": (["rendir_d_e", "mkdir_d", "mv:/e/a:/d/a"], [1, 1, 2]),
+    "folder-renamed-then-emptied-and-removed": (["rendir_d_e", "delete_e_a", "rmdir:/e"], [2, 1, 1]),
+    "renamed-and-back": (["rename_a_b", "mv:/b:/a"], [3, 2]),
+    "folder-renamed-and-back": (["rendir_d_e", "mvdir:/e:/d"], [3, 2]),
+    "edited-then-renamed": (["write_a", "rename_a_b", "write_b"], [1, 2, 1]),
+    "deleted-and-recreated": (["delete_a", "create_a", "write_a"], [1, 2, 1]),
+}
 
 
 class OriginUntouched:
@@ -37,10 +48,14 @@ def _factory(params, env=None):
         h.mode = params.get("slotmode")
         try:
             first = params.get("first")
-            for k in range(params["nops"]):
-                op = first if (k == 0 and first) else OPS[e.choose("op", len(OPS))]
+            story = STORIES[params["story"]] if params.get("story") else None
+            for k in range(len(story[0]) if story else params["nops"]):
+                if story:
+                    op = story[0][k]
+                else:
+                    op = first if (k == 0 and first) else OPS[e.choose("op", len(OPS))]
                 h.user(side, op, b"v%d" % k)
-                h.slots(params["slots"])
+                h.slots(story[1][k] if story else params["slots"])
             h.drain()
             tl, tr = lab.tree(0), lab.tree(1)
             if tl != tr:
@@ -102,6 +117,10 @@ def jobs(tier):
             for s_ in (0, 1):
                 out.append({"harness": "mirror", "params": {"flavour": f, "base": 1, "side": s_, "nops": 2, "slots": 2, "first": "write_a"},
                             "label": "%s/base1/side%d/2ops/2slots/first=write_a" % (f, s_)})
+    for f in ("oid", "path") if q else ("oid", "path", "mixed"):
+        for s_ in (0, 1):
+            for name in STORIES:
+                out.append({"harness": "mirror", "params": {"flavour": f, "base": 3, "side": s_, "story": name}, "label": "%s/base3/side%d/story=%s" % (f, s_, name)})
     for f, b, s, n, sl in combos:
         for op in OPS:
             out.append({"harness": "mirror", "params": {"flavour": f, "base": b, "side": s, "nops": n, "slots": sl, "first": op},
@@ -111,11 +130,11 @@ def jobs(tier):
 
 def meta(tier):
     return {
-        "explanation": "M2: all histories of 2 (thorough 3) user operations on ONE side (16 kinds: file create/overwrite/rename/move/delete, mkdir/rmdir, folder rename, nested), both "
+        "explanation": "M2: all histories of 2 (thorough 3) user operations on ONE side (17 kinds: file create/overwrite/rename/move/delete, mkdir/rmdir, folder rename, nested), both "
                        "directions, from three previously synchronised base trees, with solver-enumerated schedule slots, through the real engine. Oracles: the origin side's tree is "
                        "identical before and after every single engine step; at quiescence the other side equals it exactly and holds no '.conflicted' name; three further fair rounds "
-                       "issue no mutating provider call.",
-        "bounds": {"operations": OPS, "length": "2 (thorough: + 3 with a coarser schedule: nothing or one fair round after each operation)", "slots": "1 (2) per operation", "bases": "file; two files + folder with child (thorough + empty)", "flavours": "oid, path (thorough + mixed, case-insensitive, filtered)"},
+                       "issue no mutating provider call. In addition a list of fixed multi-step user stories (rename a child then its folder; create in a folder, rename the folder, edit the child; rename a folder, re-create it, move a child back; rename and rename back; ...) is run under every schedule of 1-3 slots per operation.",
+        "bounds": {"stories": {k: {"operations": v[0], "slots after each": v[1]} for k, v in STORIES.items()}, "operations": OPS, "length": "2 (thorough: + 3 with a coarser schedule: nothing or one fair round after each operation)", "slots": "1 (2) per operation", "bases": "file; two files + folder with child (thorough + empty)", "flavours": "oid, path (thorough + mixed, case-insensitive, filtered)"},
         "symbolic": ["operation kinds", "schedule slots"],
         "outside": ["longer histories", "names outside the pool"],
         "stubs": ["engine lab determinisation (virtual clock, counter ids, entry hash order)"],
